@@ -1,6 +1,7 @@
 """C06 -- the compiler always ends in accept or a line-numbered rejection, never a crash.
 
-Streams (all from ctx.rng): valid generated scripts; mutations of them (token deletion, duplication,
+Streams (all from ctx.rng): texts that break exactly one documented rule each (harness/rulebreakers.py: 8 rules x fragments x 9 contexts,
+every one must be rejected); valid generated scripts; mutations of them (token deletion, duplication,
 swap, truncation, line breaks moved); token soup over the whole vocabulary (keywords, registers, marks,
 comparison operators, names, numbers, strings, time patterns, the abbreviations and every token-class name
 in lower, upper and mixed case); ASCII noise; non-ASCII noise (implementation only).
@@ -132,6 +133,9 @@ def run(ctx):
         texts.append(('soup', prefixed_soup(rng)))
     for i in range(5000 if ctx.thorough() else 300):
         texts.append(('noise', noise(rng)))
+    import rulebreakers
+    for rule, cname, t in rulebreakers.texts():
+        texts.append(('rule:' + rule, t))
     for f in common.os.listdir(common.os.path.join(common.VERIF, 'corpus', 'C06')) if common.os.path.isdir(common.os.path.join(common.VERIF, 'corpus', 'C06')) else []:
         texts.insert(0, ('corpus', open(common.os.path.join(common.VERIF, 'corpus', 'C06', f)).read()))
     seen = set()
@@ -155,6 +159,8 @@ def run(ctx):
             ctx.counterexample('C06/compiler-raises-' + o['raises'].split(':')[0].replace('ScriptJob', '').strip(),
                                'compiling %r raises %s' % (t[:120], o['raises']), {'text': t})
             continue
+        if o['ok'] and kind.startswith('rule:'):
+            ctx.counterexample('C06/rule-not-enforced-' + kind[5:], 'the text %r breaks the rule `%s` and is accepted' % (t[:160], kind[5:]), {'text': t})
         if not o['ok']:
             if not o['errors'].strip() or o['line'] is None:
                 ctx.counterexample('C06/rejection-without-line', 'text %r is rejected without a message that names a line: %r' % (t[:120], o['errors'][:120]), {'text': t})
